@@ -1193,3 +1193,56 @@ def _(mod):
         n.args[1] = parse_expr("hashes.SHA256()")
         return n
     return edit_first(f, pred, ed, nth=3)
+
+
+@variant("c05-seq-sort-absolute", "break", ["C05"], SES, "D9s", "seq-sort-absolute", "buffered segments sorted by absolute sequence number again")
+def _(mod):
+    f = get_func(mod, "Session.extract_client_buf")
+    def pred(n):
+        return isinstance(n, ast.Call) and isinstance(n.func, ast.Attribute) and n.func.attr == "sort"
+    def ed(n):
+        n.keywords[0].value = parse_expr("lambda x: x.seq")
+        return n
+    return edit_first(f, pred, ed)
+
+
+@variant("c05-seq-sort-unsigned-distance", "break", ["C05"], SES, "D9s", "seq-sort-base", "sort key is the unsigned distance to the first buffered segment")
+def _(mod):
+    f = get_func(mod, "Session.extract_server_buf")
+    def pred(n):
+        return isinstance(n, ast.Call) and isinstance(n.func, ast.Attribute) and n.func.attr == "sort"
+    def ed(n):
+        n.keywords[0].value = parse_expr("lambda x: (x.seq - base) & 0xFFFFFFFF")
+        return n
+    return edit_first(f, pred, ed)
+
+
+@variant("c05-seq-compare-unreduced", "break", ["C05"], SES, "D9s", "seq-add-unreduced", "contiguity test without reduction modulo 2^32")
+def _(mod):
+    f = get_func(mod, "Session.extract_server_buf")
+    def pred(n):
+        return isinstance(n, ast.Compare) and ".seq" in ast.unparse(n) and isinstance(n.left, ast.BinOp) and isinstance(n.left.op, ast.BitAnd)
+    def ed(n):
+        n.left = n.left.left
+        return n
+    return edit_first(f, pred, ed)
+
+
+@variant("c05-preserve-seq-mod-spelling", "preserve", ["C05"], SES, desc="wrap arithmetic spelled with % 2**32 and a signed key `… % 2**32 - 2**31` (both directions)")
+def _(mod):
+    done = 0
+    for fn in ("Session.extract_server_buf", "Session.extract_client_buf"):
+        f = get_func(mod, fn)
+        def pred(n):
+            return isinstance(n, ast.Call) and isinstance(n.func, ast.Attribute) and n.func.attr == "sort"
+        def ed(n):
+            n.keywords[0].value = parse_expr("lambda x: (x.seq - base + 2 ** 31) % 2 ** 32 - 2 ** 31")
+            return n
+        ok = edit_first(f, pred, ed)
+        def pred2(n):
+            return isinstance(n, ast.Compare) and ".seq" in ast.unparse(n) and isinstance(n.left, ast.BinOp) and isinstance(n.left.op, ast.BitAnd)
+        def ed2(n):
+            n.left = ast.BinOp(left=n.left.left, op=ast.Mod(), right=parse_expr("2 ** 32"))
+            return n
+        done += bool(ok and edit_first(f, pred2, ed2))
+    return done == 2
